@@ -416,6 +416,8 @@ func (g *fgen) run() {
 	g.entry = &state{heap: map[string]string{}, epoch: 0, alloc: "alloc0"}
 	g.bindParams()
 	g.findLoops()
+	g.setupGinvs()
+	g.assumeGinvs(g.entry)
 	// requires
 	env := g.clauseEnv(g.entry, nil, nil)
 	for _, c := range fc.requires {
@@ -621,6 +623,7 @@ func (g *fgen) block(b *ssa.BasicBlock) {
 				g.obls[len(g.obls)-1].src = c.src
 			}
 		}
+		g.assertGinvs(st, "ginv-loop-entry", fmt.Sprintf("loop%d", li.ordinal), token.NoPos)
 		oldAlloc := st.alloc
 		if li.mods.all {
 			g.havocAll(st)
@@ -645,6 +648,7 @@ func (g *fgen) block(b *ssa.BasicBlock) {
 			v := g.defineUnknown(phi, st)
 			li.phiVals[phi] = v.t
 		}
+		g.assumeGinvs(st)
 		if li.spec != nil {
 			env := g.clauseEnv(st, b, nil)
 			for _, c := range li.spec.invariants {
@@ -686,6 +690,7 @@ func (g *fgen) backEdge(from, hdr *ssa.BasicBlock, st *state) {
 	saved := g.curGuard
 	g.curGuard = eg
 	defer func() { g.curGuard = saved }()
+	g.assertGinvs(st, "ginv-loop-step", fmt.Sprintf("loop%d", li.ordinal), token.NoPos)
 	if li.spec == nil {
 		return
 	}
@@ -1135,6 +1140,11 @@ func (g *fgen) unop(x *ssa.UnOp, st *state) {
 		}
 		v := g.define(x, g.load(st, l))
 		g.fact("true", g.wf(v.t, x.Type(), st.alloc, 0))
+		if gl, ok := x.X.(*ssa.Global); ok && v.sort == "Iface" && types.Identical(x.Type(), types.Universe.Lookup("error").Type()) {
+			// package-level error variables are initialised once (errors.New) and never nil
+			g.fact("true", fmt.Sprintf("(not (= (i_dt %s) 0))", v.t))
+			g.assum["package-level error variable "+gl.String()+" is non-nil (initialised by errors.New/fmt.Errorf, never reassigned)"] = true
+		}
 	case token.NOT:
 		g.define(x, not(g.get(x.X).t))
 	case token.SUB:
@@ -1446,6 +1456,7 @@ func (g *fgen) ret(x *ssa.Return, st *state) {
 	for i, r := range x.Results {
 		env.vars[fc.results[i].name] = g.get(r)
 	}
+	g.assertGinvs(st, "ginv-ret", g.w.srcText(x.Pos(), 0), x.Pos())
 	for _, c := range fc.ensures {
 		t, err := env.safeBool(c)
 		if err != nil {
